@@ -2,6 +2,10 @@ NOTE_COMMON = ("trusts gqlparser v2.5.1 (also used by pebbles), the harness's se
                "the Go runtime and race detector; absence of violations is a statement about the explored cases only")
 
 CHECKS = [
+    {"property_id": "C10", "category": "exploration", "design_ref": "DESIGN.md §5 C10",
+     "technique": "property-based testing (rapid): single invalidating edits of generated valid operations (metamorphic) and generated downstream error payloads",
+     "text": "(a) a generated valid operation that provably causes downstream requests receives one invalidating edit of 17 kinds; after confirming invalidity on the union schema the gateway must answer alone: no request at any fake service, errors non-empty, data null. (b) one sub-request of a valid operation is answered with a generated GraphQL errors payload; each payload error must appear in the client's errors with message, extensions and path preserved",
+     "level_note": NOTE_COMMON + "; generation avoids the feature classes of open C01 findings so that the unedited original is known to execute cleanly"},
     {"property_id": "C09", "category": "fault_enumeration", "design_ref": "DESIGN.md §5 C09",
      "technique": "fault injection enumerated over (fault kind x downstream call x batch position) of rapid-generated (world, operation) pairs, plus sampled fault pairs",
      "text": "for every rapid-generated (world, store, operation, batch size) a clean run records the downstream HTTP calls; then each of 28 fault kinds is injected at every call and batch position, one at a time (plus one sampled pair), with and without a healthy bystander operation in the same batch. The oracle: returns within the watchdog, no panic / process death, well-formed envelope, errors non-empty for failure signals, every scalar in data was returned by a service during the request (taint), bystander and later requests unaffected, no gateway goroutine left",
@@ -40,7 +44,7 @@ CHECKS = [
      "level_note": NOTE_COMMON + "; schedule control limited to callbacks and the 9 verif hook points"},
 ]
 
-_PENDING = ["C06","C08","C10","C12","C13","C14","C15","C16","C17","C18","C19"]
+_PENDING = ["C06","C08","C12","C13","C14","C15","C16","C17","C18","C19"]
 NOT_APPLICABLE = [{"property_id": p, "reason": "check not built yet (work in progress; the technique applies, see DESIGN.md §5)"} for p in _PENDING]
 
 NOTES = "All checks are property-based tests / fuzz targets in /verif/harness (Go, rapid v1.3.0) run by /verif/check; see DESIGN.md."
